@@ -1209,8 +1209,21 @@ def Generate(inp, tab, ev):
     def go():
         w = _paper_wallet(inp)
         f = argform(inp, 3)
-        data = w.generate(account=inp["account"], interval=(st, en)) if f == 0 else w.generate(inp["account"], (st, en)) if f == 1 else \
+        gen = lambda: w.generate(account=inp["account"], interval=(st, en)) if f == 0 else w.generate(inp["account"], (st, en)) if f == 1 else \
             w.generate(interval=(st, en), account=inp["account"])
+        if argform(inp, 2) == 0:
+            # the caller edits the document it was given (strips the master block, keeps one row, appends a label) and
+            # asks for it again: the second document is a fresh, complete one
+            first = gen()
+            try:
+                first["MASTER"].clear()
+                for k_ in ("BIP44", "BIP49", "BIP84"):
+                    first[k_]["groups"][:] = first[k_]["groups"][:1]
+                    first[k_]["account_extended_keys"]["prv"] = "edited"
+                first["BIP85"] = None
+            except Exception:
+                pass
+        data = gen()
         out = {"mnemonic": T(data["MASTER"]["mnemonic"] or ""), "password": T(data["MASTER"]["password"] or "")}
         for b in SLIP:
             blk = data[b.upper()]
